@@ -59,3 +59,7 @@
     pub fn as_rust_type(node_type: &str, doc: &RustDocument) -> RustFieldType { unimplemented!() }
     #[verifier::external_body]
     pub fn rename_keywords(field_name: &str) -> (res: &str) { unimplemented!() }
+//# section: lookup-callees
+    // the tree-search fallback for forward references is declared only (roxmltree descendants + the whole reader): NO contract, its result is arbitrary here
+    #[verifier::external_body]
+    fn try_to_find_node_by_xml_name_in_xml_doc<'n>(start_node: &'n Node<'n, 'n>, xml_name: &str, namespace: Option<&Namespace>, types_only: bool, doc: &mut RustDocument) -> WriterResult<RustNode> { unimplemented!() }
